@@ -4,6 +4,7 @@ import (
 	"encoding/binary"
 	"errors"
 	"fmt"
+	"math"
 	"strings"
 )
 
@@ -151,6 +152,15 @@ func (aa ArchiveInfoList) validate() error {
 		return fmt.Errorf("no retentions")
 	}
 
+	// Every offset and the file size must fit in the 32-bit fields of the format.
+	size := uint64(metaSize) + uint64(len(aa))*archiveInfoListSize
+	for _, a := range aa {
+		size += uint64(a.numberOfPoints) * pointSize
+		if size > math.MaxUint32 {
+			return fmt.Errorf("archives do not fit in a whisper file (size exceeds 32 bits)")
+		}
+	}
+
 	off := metaSize + uint32(len(aa))*archiveInfoListSize
 	for i, a := range aa {
 		if err := a.validate(); err != nil {
@@ -212,6 +222,9 @@ func (a ArchiveInfo) validate() error {
 	}
 	if a.numberOfPoints <= 0 {
 		return errors.New("number of points must be positive")
+	}
+	if int64(a.secondsPerPoint)*int64(a.numberOfPoints) > math.MaxInt32 {
+		return errors.New("retention must fit in 31 bits")
 	}
 	return nil
 }
